@@ -246,29 +246,130 @@ var schemas = map[string]*schema{"val": valSchema, "gen": genSchema, "top": topS
 
 // ValRef identifies one value of the schema: the zero struct with the listed
 // (field index, alphabet index) settings; for "top" the index into tops.
+// Shape is the capacity shape of every non-nil []byte inside the value:
+// 0 = cap == len, 1 = built by append (cap > len, spare capacity behind it),
+// 2 = a window into a larger buffer with live bytes before and behind it.
 type ValRef struct {
 	Schema string   `json:"schema"`
 	Set    [][2]int `json:"set,omitempty"`
+	Shape  int      `json:"shape,omitempty"`
 }
 
-// build constructs the value. assert=false if a beyond-range entry is used.
+var shapeNames = []string{"cap==len", "append(cap>len)", "window-into-larger-buffer"}
+
+// guard is the whole backing array of one shaped byte slice and its pristine copy.
+type guard struct {
+	buf, orig []byte
+}
+
+const windowPad = 8
+
+// shapedBytes returns a copy of b in the given capacity shape.
+func shapedBytes(b []byte, shape int, guards *[]guard) []byte {
+	if b == nil {
+		return nil
+	}
+	var out, backing []byte
+	switch shape {
+	case 1:
+		out = append(make([]byte, 0, len(b)+windowPad), b...)
+		backing = out[:cap(out)]
+	case 2:
+		backing = make([]byte, len(b)+2*windowPad)
+		for i := range backing {
+			backing[i] = 0xa5 ^ byte(i)
+		}
+		copy(backing[windowPad:], b)
+		out = backing[windowPad : windowPad+len(b)]
+	default:
+		out = make([]byte, len(b))
+		copy(out, b)
+		backing = out
+	}
+	if guards != nil {
+		*guards = append(*guards, guard{backing, append([]byte{}, backing...)})
+	}
+	return out
+}
+
+// shapeCopy is a deep copy in which every []byte gets the capacity shape.
+// The alphabets themselves are never handed to the implementation.
+func shapeCopy(x reflect.Value, shape int, guards *[]guard) reflect.Value {
+	switch x.Kind() {
+	case reflect.Ptr:
+		if x.IsNil() {
+			return x
+		}
+		n := reflect.New(x.Type().Elem())
+		n.Elem().Set(shapeCopy(x.Elem(), shape, guards))
+		return n
+	case reflect.Slice:
+		if x.IsNil() {
+			return x
+		}
+		if x.Type().Elem().Kind() == reflect.Uint8 {
+			return reflect.ValueOf(shapedBytes(x.Bytes(), shape, guards)).Convert(x.Type())
+		}
+		n := reflect.MakeSlice(x.Type(), x.Len(), x.Len())
+		for i := 0; i < x.Len(); i++ {
+			n.Index(i).Set(shapeCopy(x.Index(i), shape, guards))
+		}
+		return n
+	case reflect.Map:
+		if x.IsNil() {
+			return x
+		}
+		n := reflect.MakeMapWithSize(x.Type(), x.Len())
+		it := x.MapRange()
+		for it.Next() {
+			n.SetMapIndex(it.Key(), shapeCopy(it.Value(), shape, guards))
+		}
+		return n
+	case reflect.Struct:
+		n := reflect.New(x.Type()).Elem()
+		for i := 0; i < x.NumField(); i++ {
+			n.Field(i).Set(shapeCopy(x.Field(i), shape, guards))
+		}
+		return n
+	default:
+		return x
+	}
+}
+
+// build constructs a fresh copy of the value. assert=false if a beyond-range entry is used.
 func build(r ValRef) (v any, sc *schema, assert bool, err error) {
+	v, sc, assert, _, err = buildG(r)
+	return
+}
+
+// pristine constructs an independent copy (cap == len) that the implementation never sees.
+func pristine(r ValRef) any {
+	r.Shape = 0
+	v, _, _, _, _ := buildG(r)
+	return v
+}
+
+// buildG is build plus the guards of the shaped byte slices.
+func buildG(r ValRef) (v any, sc *schema, assert bool, guards []guard, err error) {
 	sc = schemas[r.Schema]
 	if sc == nil {
-		return nil, nil, false, fmt.Errorf("unknown schema %q", r.Schema)
+		return nil, nil, false, nil, fmt.Errorf("unknown schema %q", r.Schema)
+	}
+	if r.Shape < 0 || r.Shape >= len(shapeNames) {
+		return nil, nil, false, nil, errors.New("bad shape")
 	}
 	if sc == topSchema {
 		if len(r.Set) != 1 || r.Set[0][0] < 0 || r.Set[0][0] >= len(tops) {
-			return nil, nil, false, errors.New("bad top reference")
+			return nil, nil, false, nil, errors.New("bad top reference")
 		}
-		return tops[r.Set[0][0]], sc, true, nil
+		return shapeCopy(reflect.ValueOf(tops[r.Set[0][0]]), r.Shape, &guards).Interface(), sc, true, guards, nil
 	}
 	v = sc.zero()
 	assert = true
 	e := reflect.ValueOf(v).Elem()
 	for _, s := range r.Set {
 		if s[0] < 0 || s[0] >= len(sc.fields) {
-			return nil, nil, false, errors.New("bad field index")
+			return nil, nil, false, nil, errors.New("bad field index")
 		}
 		f := sc.fields[s[0]]
 		var x any
@@ -279,11 +380,77 @@ func build(r ValRef) (v any, sc *schema, assert bool, err error) {
 			x = f.beyond[s[1]-len(f.alpha)]
 			assert = false
 		default:
-			return nil, nil, false, errors.New("bad alphabet index")
+			return nil, nil, false, nil, errors.New("bad alphabet index")
 		}
-		e.FieldByName(f.name).Set(reflect.ValueOf(x))
+		e.FieldByName(f.name).Set(shapeCopy(reflect.ValueOf(x), r.Shape, &guards))
 	}
-	return v, sc, assert, nil
+	return v, sc, assert, guards, nil
+}
+
+// hasBytes: does the value contain a non-nil byte slice (so that capacity shapes matter)?
+func hasBytes(r ValRef) bool {
+	sc := schemas[r.Schema]
+	if sc == topSchema {
+		b, ok := tops[r.Set[0][0]].([]byte)
+		return ok && b != nil
+	}
+	for _, s := range r.Set {
+		switch sc.fields[s[0]].name {
+		case "B":
+			if sc == valSchema {
+				return true
+			}
+		case "Ba", "Bap":
+			return true
+		}
+	}
+	return false
+}
+
+// diffSame compares two values of the same form (both as handed to Dump).
+func diffSame(a, b any, sc *schema) (kind, where string) {
+	x, y := reflect.ValueOf(a), reflect.ValueOf(b)
+	if sc != topSchema {
+		x, y = x.Elem(), y.Elem()
+	}
+	return diffValue(x, y, "")
+}
+
+// hasMultiKeyMap: encoders that do not sort map keys (MsgPack, CBOR) may emit
+// such a value in different byte orders; blob equality is then not required.
+func hasMultiKeyMap(x reflect.Value) bool {
+	switch x.Kind() {
+	case reflect.Ptr, reflect.Interface:
+		return !x.IsNil() && hasMultiKeyMap(x.Elem())
+	case reflect.Map:
+		return x.Len() > 1
+	case reflect.Struct:
+		for i := 0; i < x.NumField(); i++ {
+			if hasMultiKeyMap(x.Field(i)) {
+				return true
+			}
+		}
+	}
+	return false
+}
+
+// checkArg: clause dump-does-not-modify-its-argument. v is the value that was
+// handed to the dump function, pv the pristine copy taken before.
+func (h *H) checkArg(site, how string, w Witness, v, pv any, sc *schema, guards []guard) bool {
+	w.Path = how
+	if k, where := diffSame(pv, v, sc); k != "" {
+		h.c.Violate("dump-does-not-modify-its-argument", site, "argument-changed("+k+")",
+			fmt.Sprintf("%s changed the caller's value at %s (byte slices in shape %s): before %s, after %s", how, where, shapeNames[w.Value.Shape], valueJSON(pv), valueJSON(v)), w)
+		return false
+	}
+	for _, g := range guards {
+		if !bytes.Equal(g.buf, g.orig) {
+			h.c.Violate("dump-does-not-modify-its-argument", site, "bytes-behind-argument-changed",
+				fmt.Sprintf("%s wrote into the caller's buffer outside the byte slice it was given (shape %s): backing array before %x, after %x", how, shapeNames[w.Value.Shape], g.orig, g.buf), w)
+			return false
+		}
+	}
+	return true
 }
 
 // fresh returns a new load target for a value of the same type as v.
@@ -558,35 +725,42 @@ func (h *H) checkLoaded(site, how string, w Witness, v any, sc *schema, want uin
 
 // dumpLoad runs every dump path of one (value, format) pair through Load.
 func (h *H) dumpLoad(r ValRef, f fm, t *tally) {
-	v, sc, assert, err := build(r)
+	pv, sc, assert, err := build(ValRef{r.Schema, r.Set, 0}) // pristine copy, never handed to a dump function
 	if err != nil {
 		h.c.EngineError("build %v: %v", r, err)
 		return
 	}
-	w := Witness{Kind: "roundtrip", Value: &r, ValueJSON: valueJSON(v), Format: f.name}
-	rep := representable(v, sc, f.id)
+	w := Witness{Kind: "roundtrip", Value: &r, ValueJSON: valueJSON(pv), Format: f.name}
+	rep := representable(pv, sc, f.id)
 	want := f.id
 	if want == dsd.AUTO {
 		want = h.def
 	}
+	deterministic := !hasMultiKeyMap(reflect.ValueOf(pv))
 	type dumpCall struct {
 		fn, how    string
 		compressed bool
-		call       func() ([]byte, error)
+		call       func(v any) ([]byte, error)
 	}
 	calls := []dumpCall{
-		{"Dump", fmt.Sprintf("Dump(v,%s)", f.name), false, func() ([]byte, error) { return dsd.Dump(v, f.id) }},
-		{"Dump", fmt.Sprintf("DumpIndent(v,%s,\"  \")", f.name), false, func() ([]byte, error) { return dsd.DumpIndent(v, f.id, "  ") }},
-		{"DumpAndCompress", fmt.Sprintf("DumpAndCompress(v,%s,GZIP)", f.name), true, func() ([]byte, error) { return dsd.DumpAndCompress(v, f.id, dsd.GZIP) }},
-		{"DumpAndCompress", fmt.Sprintf("DumpAndCompress(v,%s,AUTO)", f.name), true, func() ([]byte, error) { return dsd.DumpAndCompress(v, f.id, dsd.AUTO) }},
+		{"Dump", fmt.Sprintf("Dump(v,%s)", f.name), false, func(v any) ([]byte, error) { return dsd.Dump(v, f.id) }},
+		{"Dump", fmt.Sprintf("DumpIndent(v,%s,\"  \")", f.name), false, func(v any) ([]byte, error) { return dsd.DumpIndent(v, f.id, "  ") }},
+		{"DumpAndCompress", fmt.Sprintf("DumpAndCompress(v,%s,GZIP)", f.name), true, func(v any) ([]byte, error) { return dsd.DumpAndCompress(v, f.id, dsd.GZIP) }},
+		{"DumpAndCompress", fmt.Sprintf("DumpAndCompress(v,%s,AUTO)", f.name), true, func(v any) ([]byte, error) { return dsd.DumpAndCompress(v, f.id, dsd.AUTO) }},
 	}
 	for _, dc := range calls {
 		t.states++
 		t.evals++
 		t.trans++
+		// a fresh value in the requested capacity shape for every dump call
+		v, _, _, guards, err := buildG(r)
+		if err != nil {
+			h.c.EngineError("build %v: %v", r, err)
+			return
+		}
 		var blob []byte
 		var derr error
-		p, stack := vlib.Catch(func() { blob, derr = dc.call() })
+		p, stack := vlib.Catch(func() { blob, derr = dc.call(v) })
 		w.Path = dc.how
 		site := fmt.Sprintf("%s(%s)", dc.fn, f.name)
 		if p != nil {
@@ -594,8 +768,9 @@ func (h *H) dumpLoad(r ValRef, f fm, t *tally) {
 			t.out["dump:"+f.name+":panic"]++
 			continue
 		}
+		argOK := h.checkArg(site, dc.how, w, v, pv, sc, guards)
 		if !rep {
-			// not a value of this format: nothing is asserted.
+			// not a value of this format: nothing else is asserted.
 			if derr != nil {
 				t.out["dump:"+f.name+":not-representable-refused"]++
 			} else {
@@ -604,7 +779,7 @@ func (h *H) dumpLoad(r ValRef, f fm, t *tally) {
 			continue
 		}
 		if !assert {
-			t.out["beyond-interoperable-range:"+f.name+":"+h.observe(v, sc, blob, derr)]++
+			t.out["beyond-interoperable-range:"+f.name+":"+h.observe(pv, sc, blob, derr)]++
 			continue
 		}
 		if derr != nil {
@@ -615,11 +790,13 @@ func (h *H) dumpLoad(r ValRef, f fm, t *tally) {
 		if len(r.Set) > 0 {
 			t.nontriv++
 		}
+		saved := append([]byte{}, blob...)
 		var rawPayload []byte
 		if !dc.compressed && len(blob) >= 1 {
 			rawPayload = blob[1:]
 		}
-		res := h.checkLoaded(site+"→Load", "Load("+dc.how+")", w, v, sc, want, blob, rawPayload, !dc.compressed,
+		// the loaded value is compared with the pristine copy, not with the (possibly modified) argument
+		res := h.checkLoaded(site+"→Load", "Load("+dc.how+")", w, pv, sc, want, blob, rawPayload, !dc.compressed,
 			func(tg any) (uint8, error) { return dsd.Load(blob, tg) }, t)
 		t.out["roundtrip:"+dc.fn+":"+f.name+":"+res]++
 		if dc.compressed {
@@ -629,12 +806,45 @@ func (h *H) dumpLoad(r ValRef, f fm, t *tally) {
 				// only a blob that carries the GZIP identifier can be handed to DecompressAndLoad(.., GZIP, ..);
 				// a missing identifier already shows as a failed Load above.
 				t.out["roundtrip:DecompressAndLoad:"+f.name+":no-gzip-identifier"]++
-				continue
+			} else {
+				res := h.checkLoaded(site+"→DecompressAndLoad", "DecompressAndLoad("+dc.how+"[1:],GZIP)", w, pv, sc, want, blob, nil, false,
+					func(tg any) (uint8, error) { return dsd.DecompressAndLoad(blob[1:], dsd.GZIP, tg) }, t)
+				t.out["roundtrip:DecompressAndLoad:"+f.name+":"+res]++
 			}
-			res := h.checkLoaded(site+"→DecompressAndLoad", "DecompressAndLoad("+dc.how+"[1:],GZIP)", w, v, sc, want, blob, nil, false,
-				func(tg any) (uint8, error) { return dsd.DecompressAndLoad(blob[1:], dsd.GZIP, tg) }, t)
-			t.out["roundtrip:DecompressAndLoad:"+f.name+":"+res]++
 		}
+		// dump-is-repeatable: the same value once more; the earlier blob must not change.
+		if !argOK {
+			t.out["repeat:"+dc.fn+":"+f.name+":skipped-argument-changed"]++
+			continue
+		}
+		t.trans++
+		t.evals++
+		var blob2 []byte
+		var derr2 error
+		w.Path = dc.how + " twice"
+		p, stack = vlib.Catch(func() { blob2, derr2 = dc.call(v) })
+		switch {
+		case p != nil:
+			h.c.Violate("never-panics", site, vlib.PanicSite(stack), fmt.Sprintf("second %s panicked: %v; value %s", dc.how, p, w.ValueJSON), w)
+			t.out["repeat:"+dc.fn+":"+f.name+":panic"]++
+		case !bytes.Equal(blob, saved):
+			h.c.Violate("dump-is-repeatable", site, "earlier-blob-changed", fmt.Sprintf("the blob returned by %s was %s and is %s after dumping the same value again (the blob shares memory with the caller's value or with a later blob); value %s", dc.how, short(saved), short(blob), w.ValueJSON), w)
+			t.out["repeat:"+dc.fn+":"+f.name+":earlier-blob-changed"]++
+		case derr2 != nil:
+			h.c.Violate("dump-is-repeatable", site, "error-on-second-dump", fmt.Sprintf("second %s = error %v; value %s", dc.how, derr2, w.ValueJSON), w)
+			t.out["repeat:"+dc.fn+":"+f.name+":error"]++
+		case deterministic && !bytes.Equal(blob2, saved):
+			h.c.Violate("dump-is-repeatable", site, "different-blob", fmt.Sprintf("%s of the same value gave %s first and %s the second time; value %s", dc.how, short(saved), short(blob2), w.ValueJSON), w)
+			t.out["repeat:"+dc.fn+":"+f.name+":different-blob"]++
+		case !deterministic:
+			// unsorted map keys: the blobs may differ in key order; the second blob must load to the value
+			res := h.checkLoaded(site+"→Load", "Load(second "+dc.how+")", w, pv, sc, want, blob2, nil, false,
+				func(tg any) (uint8, error) { return dsd.Load(blob2, tg) }, t)
+			t.out["repeat:"+dc.fn+":"+f.name+":multi-key-map-second-blob-"+res]++
+		default:
+			t.out["repeat:"+dc.fn+":"+f.name+":equal-blob"]++
+		}
+		h.checkArg(site, dc.how+" twice", w, v, pv, sc, guards)
 	}
 }
 
@@ -725,11 +935,12 @@ func newReq() *http.Request {
 
 // httpValue: request path and requested-response path for one (value, format).
 func (h *H) httpValue(r ValRef, f fm, t *tally) {
-	v, sc, assert, err := build(r)
+	v, sc, assert, guards, err := buildG(r)
 	if err != nil || !assert {
 		return
 	}
-	w := Witness{Kind: "http", Value: &r, ValueJSON: valueJSON(v), Format: f.name}
+	pv := pristine(r) // comparisons use the pristine copy, v is what the dump function gets
+	w := Witness{Kind: "http", Value: &r, ValueJSON: valueJSON(pv), Format: f.name}
 	_, hasMime := refFormatToMime[f.id]
 
 	// (a) client dumps into a request, server loads it.
@@ -741,6 +952,9 @@ func (h *H) httpValue(r ValRef, f fm, t *tally) {
 	w.Path = fmt.Sprintf("DumpToHTTPRequest(r,v,%s)→LoadFromHTTPRequest", f.name)
 	site := fmt.Sprintf("DumpToHTTPRequest(%s)", f.name)
 	p, stack := vlib.Catch(func() { derr = dsd.DumpToHTTPRequest(req, v, f.id) })
+	if p == nil {
+		h.checkArg(site, fmt.Sprintf("DumpToHTTPRequest(r,v,%s)", f.name), w, v, pv, sc, guards)
+	}
 	switch {
 	case p != nil:
 		h.c.Violate("never-panics", site, vlib.PanicSite(stack), fmt.Sprintf("%s panicked: %v", w.Path, p), w)
@@ -754,8 +968,8 @@ func (h *H) httpValue(r ValRef, f fm, t *tally) {
 		req.Body = io.NopCloser(bytes.NewReader(body))
 		ct := req.Header.Get("Content-Type")
 		res := "bad-content-type"
-		if cf, st := h.checkContentType(site, w, ct, body, v, sc); st != "bad" {
-			res = h.checkHTTPLoaded(site+"→LoadFromHTTPRequest", w, v, sc, cf, func(tg any) (uint8, error) { return dsd.LoadFromHTTPRequest(req, tg) }, t)
+		if cf, st := h.checkContentType(site, w, ct, body, pv, sc); st != "bad" {
+			res = h.checkHTTPLoaded(site+"→LoadFromHTTPRequest", w, pv, sc, cf, func(tg any) (uint8, error) { return dsd.LoadFromHTTPRequest(req, tg) }, t)
 			if res == "ok" && st == "differs" {
 				h.ctDiffers(site, w, ct, body)
 				res = "bad-content-type"
@@ -787,7 +1001,7 @@ func (h *H) httpValue(r ValRef, f fm, t *tally) {
 	case rerr != nil:
 		h.c.Violate("dump-succeeds", "RequestHTTPResponseFormat", "error-instead-of-ok", fmt.Sprintf("%s = error %v", w.Path, rerr), w)
 	default:
-		res := h.response(w, req2, true, v, sc, t)
+		res := h.response(w, req2, true, r, pv, sc, t)
 		if len(r.Set) > 0 {
 			t.nontriv++
 		}
@@ -796,7 +1010,12 @@ func (h *H) httpValue(r ValRef, f fm, t *tally) {
 }
 
 // response runs DumpToHTTPResponse for req and loads the recorded response.
-func (h *H) response(w Witness, req *http.Request, must bool, v any, sc *schema, t *tally) string {
+func (h *H) response(w Witness, req *http.Request, must bool, r ValRef, pv any, sc *schema, t *tally) string {
+	v, _, _, guards, err := buildG(r) // a fresh value in the requested capacity shape
+	if err != nil {
+		h.c.EngineError("build %v: %v", r, err)
+		return "engine-error"
+	}
 	rec := httptest.NewRecorder()
 	var derr error
 	t.trans++
@@ -805,6 +1024,7 @@ func (h *H) response(w Witness, req *http.Request, must bool, v any, sc *schema,
 		h.c.Violate("never-panics", "DumpToHTTPResponse", vlib.PanicSite(stack), fmt.Sprintf("%s panicked: %v", w.Path, p), w)
 		return "panic"
 	}
+	h.checkArg("DumpToHTTPResponse", "DumpToHTTPResponse(w,r,v)", w, v, pv, sc, guards)
 	if derr != nil {
 		if must {
 			h.c.Violate("accept-served", "DumpToHTTPResponse", "error-instead-of-ok", fmt.Sprintf("%s: Accept %q names a supported type or a wildcard but the dump failed: %v", w.Path, req.Header.Get("Accept"), derr), w)
@@ -816,11 +1036,11 @@ func (h *H) response(w Witness, req *http.Request, must bool, v any, sc *schema,
 	body, _ := io.ReadAll(resp.Body)
 	resp.Body = io.NopCloser(bytes.NewReader(body))
 	ct := resp.Header.Get("Content-Type")
-	cf, st := h.checkContentType("DumpToHTTPResponse", w, ct, body, v, sc)
+	cf, st := h.checkContentType("DumpToHTTPResponse", w, ct, body, pv, sc)
 	if st == "bad" {
 		return "bad-content-type"
 	}
-	res := h.checkHTTPLoaded("DumpToHTTPResponse→LoadFromHTTPResponse", w, v, sc, cf, func(tg any) (uint8, error) { return dsd.LoadFromHTTPResponse(resp, tg) }, t)
+	res := h.checkHTTPLoaded("DumpToHTTPResponse→LoadFromHTTPResponse", w, pv, sc, cf, func(tg any) (uint8, error) { return dsd.LoadFromHTTPResponse(resp, tg) }, t)
 	if res == "ok" && st == "differs" {
 		h.ctDiffers("DumpToHTTPResponse", w, ct, body)
 		return "bad-content-type"
@@ -989,12 +1209,13 @@ func interestingHeader(s string) bool {
 // acceptCase: one Accept header x one value through MimeDump/MimeLoad and
 // through DumpToHTTPResponse/LoadFromHTTPResponse.
 func (h *H) acceptCase(hdr string, r ValRef, t *tally) {
-	v, sc, _, err := build(r)
+	v, sc, _, guards, err := buildG(r)
 	if err != nil {
 		h.c.EngineError("build %v: %v", r, err)
 		return
 	}
-	w := Witness{Kind: "accept", Value: &r, ValueJSON: valueJSON(v), Header: hdr}
+	pv := pristine(r)
+	w := Witness{Kind: "accept", Value: &r, ValueJSON: valueJSON(pv), Header: hdr}
 	must := acceptNames(hdr)
 	cls := "names-nothing"
 	if must {
@@ -1014,6 +1235,9 @@ func (h *H) acceptCase(hdr string, r ValRef, t *tally) {
 	var derr error
 	t.trans++
 	p, stack := vlib.Catch(func() { data, mime, format, derr = dsd.MimeDump(v, hdr) })
+	if p == nil {
+		h.checkArg("MimeDump", fmt.Sprintf("MimeDump(v,%q)", hdr), w, v, pv, sc, guards)
+	}
 	switch {
 	case p != nil:
 		h.c.Violate("never-panics", "MimeDump", vlib.PanicSite(stack), fmt.Sprintf("%s panicked: %v", w.Path, p), w)
@@ -1025,12 +1249,12 @@ func (h *H) acceptCase(hdr string, r ValRef, t *tally) {
 		t.out["accept:MimeDump:"+cls+":refused"]++
 	default:
 		res := "bad-content-type"
-		if cf, st := h.checkContentType("MimeDump", w, mime, data, v, sc); st != "bad" {
+		if cf, st := h.checkContentType("MimeDump", w, mime, data, pv, sc); st != "bad" {
 			res = "ok-" + fmtName(cf)
 			if format != cf {
 				h.c.Violate("http-reports-format", "MimeDump", "wrong-format", fmt.Sprintf("%s: returned format %s but mime type %q", w.Path, fmtName(format), mime), w)
 				res = "wrong-format"
-			} else if r2 := h.checkHTTPLoaded("MimeDump→MimeLoad", w, v, sc, cf, func(tg any) (uint8, error) { return dsd.MimeLoad(data, mime, tg) }, t); r2 != "ok" {
+			} else if r2 := h.checkHTTPLoaded("MimeDump→MimeLoad", w, pv, sc, cf, func(tg any) (uint8, error) { return dsd.MimeLoad(data, mime, tg) }, t); r2 != "ok" {
 				res = r2
 			} else if st == "differs" {
 				h.ctDiffers("MimeDump", w, mime, data)
@@ -1044,7 +1268,7 @@ func (h *H) acceptCase(hdr string, r ValRef, t *tally) {
 	w.Path = fmt.Sprintf("DumpToHTTPResponse(Accept: %q)→LoadFromHTTPResponse", hdr)
 	req := newReq()
 	req.Header.Set("Accept", hdr)
-	res := h.response(w, req, must, v, sc, t)
+	res := h.response(w, req, must, r, pv, sc, t)
 	t.out["accept:DumpToHTTPResponse:"+cls+":"+res]++
 }
 
@@ -1309,8 +1533,10 @@ func main() {
 			"(integers {1,-1,min,max} within +-(2^53-1), 8 strings incl. non-ASCII / JSON-escaped / YAML-significant / all YAML line breaks, nil+empty+1B+3B+300B byte slices, empty and filled slices/maps, nil/non-nil pointers) plus 18 top-level values; each x 7 formats {JSON,CBOR,MsgPack,YAML,GenCode,RAW,AUTO} x {Dump, DumpIndent, DumpAndCompress GZIP, DumpAndCompress AUTO} -> Load and DecompressAndLoad, and x HTTP request and requested-response paths; " +
 			"(2) headers: every Accept / Content-Type string of <=n elements from the media-range grammar (4 registered types, lenient spellings, unsupported types, wildcards x case x parameters x optional white space x separators) x 4 values through MimeDump/MimeLoad and DumpToHTTPResponse/LoadFromHTTPResponse; " +
 			"(3) totality: every byte string of length <=3 (thorough: also every 4-byte string starting with a known id), every truncation and single-byte substitution of valid dumps, every gzip-wrapped inner string of length <=2, x load targets {struct, gencode struct, interface}. " +
+			"Byte slices (top-level RAW values and []byte fields) are additionally enumerated in the capacity shapes {cap==len, built by append with spare capacity, window into a larger buffer with live bytes around it}; every dump gets a fresh copy, the loaded value is compared with a pristine copy taken before the dump, the argument and its whole backing array must be unchanged after every dump, and every dump is done twice (equal blobs, earlier blob unchanged). " +
 			"non-trivial = cases with a non-zero value whose dump was produced and loaded back, header strings with more than a bare lower-case type, byte strings whose first byte is a known format/compression id")
 		c.Assume("equality of dumped and loaded value is semantic: nil and empty slices/maps are one value (GenCode, MsgPack and JSON-null have a single representation); pointer nil-ness, lengths and all contents must match")
+		c.Assume("dump-is-repeatable compares the two blobs byte for byte unless the value holds a map with more than one key (MsgPack and CBOR do not sort map keys); then the second blob must load to the value")
 		c.Assume("RAW has no decoder by design: Load answering (RAW, ErrIsRaw) counts as loaded when the bytes behind the format id of the blob the caller holds equal the dumped bytes")
 		c.Assume("formats without a registered media type (GenCode, RAW, AUTO) may be refused by DumpToHTTPRequest/RequestHTTPResponseFormat; the property speaks about data that was dumped")
 		c.Assume("which supported type is chosen for an Accept header is not asserted, only that the dump is served and Content-Type names the body's encoding; elements with white space before ';' and bare/lenient spellings (json, text/yaml, *) are executed but success is not required (http_test.go documents 'yaml ;charset' as invalid)")
@@ -1327,7 +1553,7 @@ func main() {
 		hdrElems := vlib.Pick(c, 2, 3)
 		for _, sn := range []string{"Dump→Load", "DumpIndent→Load", "DumpAndCompress(GZIP|AUTO)→Load", "DumpAndCompress→DecompressAndLoad", "DumpToHTTPRequest→LoadFromHTTPRequest",
 			"RequestHTTPResponseFormat→DumpToHTTPResponse→LoadFromHTTPResponse", "Accept grammar: MimeDump→MimeLoad", "Accept grammar: DumpToHTTPResponse→LoadFromHTTPResponse",
-			"Content-Type grammar: LoadFromHTTPRequest", "totality: Load on byte strings", "totality: MimeLoad/DecompressAndLoad on byte strings", "totality: gzip-wrapped inner strings", "totality: truncations/substitutions of valid dumps"} {
+			"Content-Type grammar: LoadFromHTTPRequest", "totality: Load on byte strings", "totality: MimeLoad/DecompressAndLoad on byte strings", "totality: gzip-wrapped inner strings", "totality: truncations/substitutions of valid dumps", "dump does not modify its argument (capacity shapes)", "dump is repeatable"} {
 			c.Scenario(sn)
 		}
 
@@ -1335,18 +1561,28 @@ func main() {
 		var refs []ValRef
 		for _, sc := range []*schema{valSchema, genSchema} {
 			for _, s := range enumSets(sc, k) {
-				refs = append(refs, ValRef{sc.name, s})
+				refs = append(refs, ValRef{sc.name, s, 0})
 			}
 			for fi, f := range sc.fields {
 				for bi := range f.beyond {
-					refs = append(refs, ValRef{sc.name, [][2]int{{fi, len(f.alpha) + bi}}})
+					refs = append(refs, ValRef{sc.name, [][2]int{{fi, len(f.alpha) + bi}}, 0})
 				}
 			}
-			refs = append(refs, ValRef{sc.name, richSet(sc)})
+			refs = append(refs, ValRef{sc.name, richSet(sc), 0})
 		}
 		for i := range tops {
-			refs = append(refs, ValRef{"top", [][2]int{{i, 0}}})
+			refs = append(refs, ValRef{"top", [][2]int{{i, 0}}, 0})
 		}
+		// every value that contains a non-nil byte slice also in the capacity shapes cap > len
+		nBase := len(refs)
+		for i := 0; i < nBase; i++ {
+			if hasBytes(refs[i]) {
+				for shape := 1; shape < len(shapeNames); shape++ {
+					refs = append(refs, ValRef{refs[i].Schema, refs[i].Set, shape})
+				}
+			}
+		}
+		c.Extra("values_with_shaped_byte_slices", int64(len(refs)-nBase))
 		c.Extra("values", int64(len(refs)))
 		c.Extra("value_fields_set_max", int64(k))
 		stopped := new(atomic.Bool)
@@ -1373,7 +1609,7 @@ func main() {
 		fmt.Printf("phase 1: %d values x %d formats done (%.0fs)\n", len(refs), len(allFormats), time.Since(h.start).Seconds())
 
 		// ---- phase 2: header grammar
-		hdrVals := []ValRef{{"val", nil}, {"val", richSet(valSchema)}, {"gen", richSet(genSchema)}, {"top", [][2]int{{2, 0}}}}
+		hdrVals := []ValRef{{"val", nil, 0}, {"val", richSet(valSchema), 0}, {"gen", richSet(genSchema), 2}, {"top", [][2]int{{2, 0}}, 0}}
 		headers := buildHeaders(hdrElems)
 		c.Extra("accept_headers", int64(len(headers)))
 		c.ParallelFor(len(headers), func(i int) {
@@ -1576,10 +1812,10 @@ func (h *H) totality(stopped *atomic.Bool) {
 		r      ValRef
 		target string
 	}{
-		{ValRef{"val", nil}, "val"},
-		{ValRef{"val", richSet(valSchema)}, "val"},
-		{ValRef{"top", [][2]int{{2, 0}}}, "string"},
-		{ValRef{"top", [][2]int{{15, 0}}}, "bytes"},
+		{ValRef{"val", nil, 0}, "val"},
+		{ValRef{"val", richSet(valSchema), 0}, "val"},
+		{ValRef{"top", [][2]int{{2, 0}}, 0}, "string"},
+		{ValRef{"top", [][2]int{{15, 0}}, 0}, "bytes"},
 	}
 	for _, cp := range corpus {
 		v, sc, _, _ := build(cp.r)
